@@ -226,3 +226,39 @@ Definition init_fs (old : option bytes) : fs :=
   | Some b => {| inodes := [(0, {| i_dur := b; i_vol := b; i_dirty := false |})]; ddir := [(0, 0)]; pend := []; fds := []; next := 1 |}
   | None => {| inodes := []; ddir := []; pend := []; fds := []; next := 1 |}
   end.
+
+(* ---- the state a crash leaves behind is the start state of the next run ----
+   After a crash no descriptor is open.  [Process]: the kernel's view survives, nothing
+   distinguishes it from a state in which everything visible is also durable, so recovery
+   flattens it.  [Power]: one choice of a directory prefix and, per inode, of one of its
+   possible contents; [power_recovered] relates a state to every state that can come back. *)
+Definition flatten_inode (nd : inode) : inode := {| i_dur := i_vol nd; i_vol := i_vol nd; i_dirty := false |}.
+Definition recover_process (st : fs) : fs :=
+  {| inodes := map (fun e => (fst e, flatten_inode (snd e))) (inodes st);
+     ddir := vdir st; pend := []; fds := []; next := next st |}.
+Definition clean_with (b : bytes) : inode := {| i_dur := b; i_vol := b; i_dirty := false |}.
+Inductive inodes_recovered : list (ino * inode) -> list (ino * inode) -> Prop :=
+| IRnil : inodes_recovered [] []
+| IRcons i nd b t t' : In b (power_pick prefixes nd) -> inodes_recovered t t' ->
+                       inodes_recovered ((i, nd) :: t) ((i, clean_with b) :: t').
+Definition power_recovered (st st' : fs) : Prop :=
+  exists k, ddir st' = apply_dirops (ddir st) (firstn k (pend st)) /\ pend st' = [] /\ fds st' = [] /\
+            next st' = next st /\ inodes_recovered (inodes st) (inodes st').
+
+(* Start states with leftover files: entry 0 holds [cur] (or does not exist), entries
+   1..k hold the leftovers [left] (whatever earlier interrupted runs left behind), all
+   clean, nothing pending, nothing open; names and inodes numbered alike. *)
+Fixpoint left_inodes (i : nat) (left : list bytes) : list (ino * inode) :=
+  match left with
+  | [] => []
+  | b :: t => (i, clean_with b) :: left_inodes (S i) t
+  end.
+Fixpoint left_dir (i : nat) (left : list bytes) : list (name * ino) :=
+  match left with
+  | [] => []
+  | _ :: t => (i, i) :: left_dir (S i) t
+  end.
+Definition init_left (cur : option bytes) (left : list bytes) : fs :=
+  {| inodes := match cur with Some b => [(0, clean_with b)] | None => [] end ++ left_inodes 1 left;
+     ddir := match cur with Some _ => [(0, 0)] | None => [] end ++ left_dir 1 left;
+     pend := []; fds := []; next := S (length left) |}.
